@@ -81,7 +81,7 @@ func runWriterOps(set WSetting, data []byte, ops []gen.Op) (z []byte, err error)
 	for i, op := range ops {
 		switch op.K {
 		case "W":
-			n, e := w.Write(data[off : off+op.N])
+			n, e := writeReused(w, data[off:off+op.N])
 			if e != nil || n != op.N {
 				return nil, fmt.Errorf("op %d Write(%d bytes) = (%d, %v)", i, op.N, n, e)
 			}
